@@ -12,7 +12,11 @@ LEVEL = "exploration"
 TECHNIQUE = ("exhaustive enumeration of the finite value domain + Hypothesis "
              "over arbitrary comparable values, algebraic-law oracle")
 RULE = ("enumerated: every assignment of values {0..3} to base, this, other and "
-        "to 0-3 LCAs, x allow_overriding_lca; generated: the same shape over "
+        "to 0-3 LCAs, x allow_overriding_lca; enum-blocks: 6 symbols x 0-4 LCAs "
+        "and 4 symbols x 5-6 LCAs over ints, 5 symbols x 0-4 LCAs over six "
+        "further value families (big ints, file ids, names, (kind, sha1) pairs, "
+        "None-or-id, None/False/True/''/b''), every argument a distinct object; "
+        "generated: the same shape over "
         "None/str/tuple values with up to 5 LCAs. Non-trivial: this, other and "
         "at least one ancestor value pairwise distinct, or >= 2 distinct LCA "
         "values. Distinct by construction (enumeration) / by case hash.")
@@ -28,20 +32,41 @@ def _fns():
 
 
 def _val(v):
-    # JSON case -> hashable python value
+    # JSON case -> hashable python value. Equal values are made *distinct
+    # objects* wherever Python allows it (the decision must rest on ==, as it
+    # does for the file ids, names and (kind, sha1) pairs of a real merge)
     if isinstance(v, list):
         return tuple(_val(x) for x in v)
+    if isinstance(v, str) and len(v) > 1:
+        return (v + " ")[:-1]
     return v
 
 
+# value families of the block enumeration: symbol i -> a fresh object
+FAMILIES = {
+    "int": lambda i: i,
+    "bigint": lambda i: 10 ** 30 + i,
+    "file-id": lambda i: b"file-%d-id" % i,
+    "name": lambda i: "n\xe4me-%d" % i,
+    "content-pair": lambda i: (("file", "symlink", "directory")[i % 3],
+                               b"sha1-%d" % (i // 3)),
+    "parent-or-none": lambda i: None if i == 0 else b"dir-%d-id" % i,
+    "exec": lambda i: (None, False, True, "", b"", ())[i],   # falsy ones too
+}
+
+
 def run(case, env):
-    three, lca = _fns()
     b = _val(case["base"])
     t = _val(case["this"])
     o = _val(case["other"])
     lcas = [_val(x) for x in case["lcas"]]
-    allow = case["allow"]
-    res = {}
+    label = laws(b, t, o, lcas, case["allow"], case)
+    return ok(label) if label else trivial()
+
+
+def laws(b, t, o, lcas, allow, case):
+    """All laws of the property on one assignment; -> non-triviality label."""
+    three, lca = _fns()
     r3 = three(b, o, t)
     r3s = three(b, t, o)
     check(r3 in SWAP, "C18/three_way-bad-result", [case, r3])
@@ -82,10 +107,10 @@ def run(case, env):
     # non-triviality
     ancs = [b] + lcas
     if len(set(lcas)) >= 2:
-        return ok("multi-lca-values")
+        return "multi-lca-values"
     if t != o and any(a != t and a != o for a in ancs):
-        return ok("this-other-ancestor-distinct")
-    return trivial()
+        return "this-other-ancestor-distinct"
+    return None
 
 
 def enum_cases(tier):
@@ -96,6 +121,42 @@ def enum_cases(tier):
                 for allow in (True, False):
                     yield {"base": b, "this": t, "other": o,
                            "lcas": list(lcas), "allow": allow}
+
+
+def block_domain(fam):
+    """(number of symbols, LCA counts) enumerated for a value family."""
+    if fam == "int":
+        return [(6, (0, 1, 2, 3, 4)), (4, (5, 6))]
+    return [(5, (0, 1, 2, 3, 4))]
+
+
+def enum_blocks(tier):
+    for fam in FAMILIES:
+        for syms, counts in block_domain(fam):
+            for n in counts:
+                for b, t, o in itertools.product(range(syms), repeat=3):
+                    yield {"fam": fam, "syms": syms, "n": n, "base": b,
+                           "this": t, "other": o}
+
+
+def run_block(case, env):
+    """One block = fixed (base, this, other) symbols, every assignment of
+    `syms` symbols to `n` LCAs x allow_overriding_lca. Every argument of every
+    call is its own object (equal symbols are equal, not identical, values)."""
+    mk = FAMILIES[case["fam"]]
+    rng = range(case["syms"])
+    n_eval = nt = 0
+    for lc in itertools.product(rng, repeat=case["n"]):
+        for allow in (True, False):
+            b, t, o = mk(case["base"]), mk(case["this"]), mk(case["other"])
+            lcas = [mk(i) for i in lc]
+            la = laws(b, t, o, lcas, allow,
+                      (case["fam"], b, t, o, lcas, allow))
+            n_eval += 1
+            if la:
+                nt += 1
+    return ok("block:%s:%d-lcas" % (case["fam"], case["n"]) if nt else None,
+              n=n_eval, nt=nt)
 
 
 _value = st.one_of(
@@ -117,16 +178,20 @@ def kinds(tier):
     return [
         Kind("enum-0..3", run, enumerate=enum_cases, exhaustive=True,
              hash_cases=False),
+        Kind("enum-blocks", run_block, enumerate=enum_blocks, exhaustive=True,
+             hash_cases=False),
         Kind("generated-values", run, strategy=gen_case(),
              examples={"quick": 20000, "thorough": 500000}),
     ]
 
 REGISTERED = True
 LEVEL_TEXT = ("The two decision functions are finite-domain: every assignment of "
-              "4 values to base/this/other and up to 3 LCAs (10 880 tuples) is "
+              "4 values to base/this/other and up to 3 LCAs (10 880 tuples), of 6 "
+              "values with up to 4 LCAs and of 4 values with 5-6 LCAs (2.5 million "
+              "tuples over seven value families) is "
               "enumerated and all laws of the property are checked on each; "
               "arbitrary value types are sampled on top. For the bounded domain "
               "this is a complete decision, beyond it a sample.")
 LEVEL_NOTE = ("Assumes the functions depend on their arguments only through == / "
-              "set membership, so 4 symbols suffice to distinguish base, this, "
-              "other and one more LCA value; more than 3 LCAs are only sampled.")
+              "set membership, so 6 symbols suffice to distinguish base, this, "
+              "other and three more LCA values; more than 6 LCAs are not tried.")
